@@ -39,11 +39,20 @@ def qual(cls):
 # ----------------------------------------------------------------------------- classes
 
 def copyable_classes():
-    """every concrete Copyable class reachable from the public menpo namespaces"""
+    """every Copyable class defined anywhere in the menpo package"""
     import importlib
+    import pkgutil
+    import menpo
     from menpo.base import Copyable
     out = {}
-    for m in SCAN_MODULES:
+    # every module of the package (a Copyable class added anywhere is met), tests excluded
+    names = list(SCAN_MODULES)
+    try:
+        names += sorted(m.name for m in pkgutil.walk_packages(menpo.__path__, "menpo.")
+                        if ".test" not in m.name and not m.name.endswith("conftest") and m.name not in names)
+    except Exception:
+        pass
+    for m in names:
         try:
             mod = importlib.import_module(m)
         except Exception:
@@ -128,7 +137,10 @@ def add_landmarks(rng, o, d, depth=1):
     names = ["a", "b", "é中", "g 0"]
     rng.shuffle(names)
     for i in range(rng.randint(1, 3)):
-        g = make_shape(rng, rng.choice(SHAPE_KINDS), d)
+        if rng.random() < 0.08:
+            g = make_shape(rng, "PointCloud", d, 1)        # boundary size: a single landmark
+        else:
+            g = make_shape(rng, rng.choice(SHAPE_KINDS), d)
         if depth > 1 and i == 0:
             add_landmarks(rng, g, d, depth - 1)
         o.landmarks[names[i]] = g
@@ -216,7 +228,8 @@ def make_model(rng, kind):
     if kind == "MeanLinearVectorModel":
         return MeanLinearVectorModel(_dy(rng, (3, 6), 8, 4), _dy(rng, (6,), 8, 4))
     if kind == "PCAVectorModel":
-        m = PCAVectorModel(_dy(rng, (7, 5), 16, 4), inplace=False)
+        m = PCAVectorModel(_dy(rng, (7, 5), 16, 4), centre=rng.random() < 0.75,
+                           max_n_components=rng.choice([None, None, 3]), inplace=False)
     else:
         if rng.random() < 0.5:
             samples = [add_landmarks(rng, make_shape(rng, "PointCloud", 2, 4), 2) for _ in range(6)]
@@ -226,7 +239,7 @@ def make_model(rng, kind):
             samples = [s for s in samples if s.n_channels == c]
             while len(samples) < 4:
                 samples.append(samples[0].copy())
-        m = PCAModel(samples)
+        m = PCAModel(samples, centre=rng.random() < 0.75, max_n_components=rng.choice([None, None, 3]))
     r = rng.random()
     try:
         if r < 0.3 and m.n_components > 2:
@@ -255,6 +268,20 @@ LABELS = (SHAPE_LABELS + IMAGE_LABELS + ["LandmarkManager", "LandmarkManager0"] 
           + MODEL_LABELS + ["LazyList"])
 
 
+def _vary_array(rng, o, attr, dtypes=(np.float32,)):
+    """storage variants of a public data array: a view into a larger base array (the object does not own the
+    memory), Fortran order, another dtype.  The value stays the same up to the cast."""
+    r = rng.random()
+    a = getattr(o, attr)
+    if r < 0.25:
+        base = np.concatenate([np.zeros_like(a[:1]), a, np.zeros_like(a[:1])], axis=0)
+        setattr(o, attr, base[1:-1])
+    elif r < 0.35:
+        setattr(o, attr, np.asfortranarray(a))
+    elif r < 0.45 and dtypes:
+        setattr(o, attr, a.astype(dtypes[rng.randrange(len(dtypes))]))
+
+
 def make(label, rng):
     """one populated instance for `label`, reproducible from the state of `rng`"""
     from menpo.landmark import LandmarkManager
@@ -266,6 +293,7 @@ def make(label, rng):
             add_landmarks(rng, o, d, 2 if r < 0.25 else 1)
         elif r < 0.85:
             o.landmarks  # an empty manager (created lazily by the property)
+        _vary_array(rng, o, "points")
         return o
     if label in IMAGE_LABELS:
         d = rng.choice([2, 2, 3])
@@ -275,6 +303,7 @@ def make(label, rng):
             add_landmarks(rng, o, d, 2 if r < 0.2 else 1)
         if rng.random() < 0.3:
             o.path = pathlib.Path("/nonexistent/img_%d.png" % rng.randint(0, 9))
+        _vary_array(rng, o, "pixels", dtypes=() if label == "BooleanImage" else (np.float32, np.uint8))
         return o
     if label == "LandmarkManager":
         return add_landmarks(rng, make_shape(rng, "PointCloud", 2), 2, 2).landmarks
@@ -297,6 +326,10 @@ def pool(rng, per_class=1):
 
 # ----------------------------------------------------------------------------- heap encoding
 
+class CyclicGraph(Exception):
+    """the object graph contains a reference cycle (Copyable.copy would not terminate on it)"""
+
+
 class Enc:
     """object graph -> cells.  cells[i] = ('B', obj) | ('N', kind, [(name, val)], obj) with val = ('i', tag) | ('r', j).
     `paths[i]` = first access path of cell i (for messages)."""
@@ -306,6 +339,7 @@ class Enc:
         self.ids = {}
         self.paths = []
         self.keep = []   # keep temporaries alive so id() stays unique
+        self.open = set()  # composite values being encoded: meeting one again is a reference cycle
 
     def val(self, v, path):
         from menpo.base import Copyable
@@ -319,6 +353,9 @@ class Enc:
             return self._add(v, ("B", v), path)
         if sp.issparse(v):
             return self._add(v, ("B", v), path)
+        if id(v) in self.open:
+            raise CyclicGraph(path)
+        self.open.add(id(v))
         if isinstance(v, dict):
             slots = [(self._key(k), self.val(x, path + "[%r]" % (k,))) for k, x in v.items()]
             return self._add(v, ("N", "D", slots, v), path)
@@ -348,6 +385,7 @@ class Enc:
 
     def _add(self, v, cell, path):
         # children first (they were encoded while building `slots`), then the cell itself
+        self.open.discard(id(v))
         self.ids[id(v)] = len(self.cells)
         self.cells.append(cell)
         self.paths.append(path)
@@ -431,7 +469,7 @@ def _lean_kind(k):
     return ".%s .%s" % (k[0], k[1])
 
 
-def lean_files():
+def lean_files(extra_import=None, extra_obligations=""):
     attr, sup, notes = tables()
     lines = ["/-",
              "GENERATED by harness/extract_c06.py from the live classes of the menpo working tree - do not edit.",
@@ -462,7 +500,7 @@ def lean_files():
 Obligations over the regenerated C06 tables (re-checked by `lake build` against what the code says now).
 -/
 import MenpoModel.Generated.C06AttrKinds
-
+%s
 namespace MenpoModel.C06.GenProps
 open MenpoModel.C06
 
@@ -473,7 +511,8 @@ theorem attrKinds_ok : copyWF Generated.attrKinds Generated.copySupplier = true 
 /-- every class of the attribute table has a resolved `copy` that the model knows -/
 theorem copySupplier_ok :
     Generated.attrKinds.all (fun row => resOf Generated.copySupplier row.1 != .unknown) = true := by decide +kernel
-
+%s
 end MenpoModel.C06.GenProps
 """
+    obl = obl % (("import %s\n" % extra_import) if extra_import else "", extra_obligations)
     return {GEN_PATH: gen, OBL_PATH: obl}, notes
